@@ -54,7 +54,6 @@ from _griffe.docstrings.models import (
 )
 from _griffe.docstrings.utils import docstring_warning, parse_docstring_annotation
 from _griffe.enumerations import DocstringSectionKind, LogLevel
-from _griffe.expressions import ExprName
 
 if TYPE_CHECKING:
     from re import Pattern
@@ -337,6 +336,19 @@ def _read_deprecated_section(
     return DocstringSectionDeprecated(version=version, text=text), new_offset
 
 
+def _annotation_from_parent(annotation: Any, *, gen_index: int, multiple: bool, index: int) -> Any:
+    # Same rules as the Google parser: pick the slot of `Generator[yield, send, return]` (or the item of `Iterator[...]`
+    # for yielded values), then the element of a tuple only when several items are documented.
+    with suppress(AttributeError, IndexError):
+        if annotation.is_generator:
+            annotation = annotation.slice.elements[gen_index]
+        elif annotation.is_iterator and gen_index == 0:
+            annotation = annotation.slice
+        if multiple and annotation.is_tuple:
+            annotation = annotation.slice.elements[index]
+    return annotation
+
+
 def _read_returns_section(
     docstring: Docstring,
     *,
@@ -371,22 +383,7 @@ def _read_returns_section(
                     annotation = docstring.parent.annotation  # type: ignore[union-attr]
                 else:
                     raise ValueError
-                if len(items) > 1:
-                    if annotation.is_tuple:
-                        annotation = annotation.slice.elements[index]
-                    else:
-                        if annotation.is_iterator:
-                            return_item = annotation.slice
-                        elif annotation.is_generator:
-                            return_item = annotation.slice.elements[2]
-                        else:
-                            raise ValueError
-                        if isinstance(return_item, ExprName):
-                            annotation = return_item
-                        elif return_item.is_tuple:
-                            annotation = return_item.slice.elements[index]
-                        else:
-                            annotation = return_item
+                annotation = _annotation_from_parent(annotation, gen_index=2, multiple=len(items) > 1, index=index)
         else:
             annotation = parse_docstring_annotation(annotation, docstring, log_level=LogLevel.debug)
         returns.append(DocstringReturn(name=name or "", annotation=annotation, description=text))
@@ -423,18 +420,7 @@ def _read_yields_section(
             # try to retrieve the annotation from the docstring parent
             with suppress(AttributeError, IndexError, KeyError, ValueError):
                 annotation = docstring.parent.annotation  # type: ignore[union-attr]
-                if annotation.is_iterator:
-                    yield_item = annotation.slice
-                elif annotation.is_generator:
-                    yield_item = annotation.slice.elements[0]
-                else:
-                    raise ValueError
-                if isinstance(yield_item, ExprName):
-                    annotation = yield_item
-                elif yield_item.is_tuple:
-                    annotation = yield_item.slice.elements[index]
-                else:
-                    annotation = yield_item
+                annotation = _annotation_from_parent(annotation, gen_index=0, multiple=len(items) > 1, index=index)
         else:
             annotation = parse_docstring_annotation(annotation, docstring, log_level=LogLevel.debug)
         yields.append(DocstringYield(name=name or "", annotation=annotation, description=text))
@@ -471,14 +457,7 @@ def _read_receives_section(
             # try to retrieve the annotation from the docstring parent
             with suppress(AttributeError, IndexError, KeyError):
                 annotation = docstring.parent.returns  # type: ignore[union-attr]
-                if annotation.is_generator:
-                    receives_item = annotation.slice.elements[1]
-                    if isinstance(receives_item, ExprName):
-                        annotation = receives_item
-                    elif receives_item.is_tuple:
-                        annotation = receives_item.slice.elements[index]
-                    else:
-                        annotation = receives_item
+                annotation = _annotation_from_parent(annotation, gen_index=1, multiple=len(items) > 1, index=index)
         else:
             annotation = parse_docstring_annotation(annotation, docstring, log_level=LogLevel.debug)
         receives.append(DocstringReceive(name=name or "", annotation=annotation, description=text))
